@@ -126,8 +126,8 @@ def tree(ctx, bt, btkey):
     ctx.eq('C03.b.nalpha', A, 'base.n_alpha\'', base[12], T.ONE, why='one point', sp=sp)
     # ---------------- recursion
     recs = ev.vf.rec_calls
-    if len(recs) != 3:
-        ctx.unknown('C03.r', A, 'recursion', why='expected the first subtree call and one call per direction for the second subtree (found %d recursive call sites)' % len(recs), sp=sp)
+    if len(recs) not in (2, 3):
+        ctx.unknown('C03.r', A, 'recursion', why='expected the first subtree call and the second subtree call (one site, or one per direction); found %d recursive call sites' % len(recs), sp=sp)
         return
     R1 = recs[0][2]
     ctx.eq('C03.r.first', A, 'rec.first', T.tup(*recs[0][1]), T.tup(th, r, g, logu, v, T.sub(j, T.ONE), eps, tg, j0, rng), sp=recs[0][4],
@@ -138,18 +138,30 @@ def tree(ctx, bt, btkey):
 
     def args2(a, b, c):
         return T.tup(T.proj(R1, a), T.proj(R1, b), T.proj(R1, c), logu, v, T.sub(j, T.ONE), eps, tg, j0, rng1)
-    by_args = {T.tup(*rc[1]): rc for rc in recs[1:]}
-    Rm_rc, Rp_rc = by_args.get(args2(0, 1, 2)), by_args.get(args2(3, 4, 5))
-    okstart = Rm_rc is not None and Rp_rc is not None
-    ctx.check('C03.r.second_args', A, 'rec.second-args', okstart, expected='second subtree starts from the minus edge (roles 0,1,2 of the first result) or the plus edge (roles 3,4,5), same log u, v, j-1, eps, target, joint0, generator after the first call',
+    NZ = T.lnot(T.cmp('eq', j, T.ZERO))
+    if len(recs) == 3:
+        # one call site per direction
+        by_args = {T.tup(*rc[1]): rc for rc in recs[1:]}
+        Rm_rc, Rp_rc = by_args.get(args2(0, 1, 2)), by_args.get(args2(3, 4, 5))
+        okstart = Rm_rc is not None and Rp_rc is not None
+        okguard = okstart and tuple(Rm_rc[3]) == (NZ, s1, Vm) and tuple(Rp_rc[3]) == (NZ, s1, T.lnot(Vm))
+        foundg = 'minus-call under [%s]; plus-call under [%s]' % (' & '.join(show(c) for c in Rm_rc[3]), ' & '.join(show(c) for c in Rp_rc[3])) if okstart else ''
+    else:
+        # one call site whose start state is selected by the direction first
+        rc = recs[1]
+        edge = T.tup(T.ite(Vm, T.proj(R1, 0), T.proj(R1, 3)), T.ite(Vm, T.proj(R1, 1), T.proj(R1, 4)), T.ite(Vm, T.proj(R1, 2), T.proj(R1, 5)), logu, v, T.sub(j, T.ONE), eps, tg, j0, rng1)
+        okstart = T.tup(*rc[1]) is edge
+        Rm_rc = Rp_rc = rc
+        okguard = okstart and tuple(rc[3]) == (NZ, s1)
+        foundg = 'call under [%s]' % ' & '.join(show(c) for c in rc[3])
+    ctx.check('C03.r.second_args', A, 'rec.second-args', okstart, expected='second subtree starts from the minus edge (roles 0,1,2 of the first result) if v = -1, else from the plus edge (roles 3,4,5), same log u, v, j-1, eps, target, joint0, generator after the first call',
               found='; '.join(show(T.tup(*rc[1]))[:200] for rc in recs[1:]), sp=sp, why='the second half of the doubling continues the trajectory from the outer edge of the first half')
     if not okstart:
         return
     Rm, Rp = Rm_rc[2], Rp_rc[2]
     name_terms(T1=R1, T2minus=Rm, T2plus=Rp)
-    okguard = tuple(Rm_rc[3]) == (T.lnot(T.cmp('eq', j, T.ZERO)), s1, Vm) and tuple(Rp_rc[3]) == (T.lnot(T.cmp('eq', j, T.ZERO)), s1, T.lnot(Vm))
     ctx.check('C03.r.guard', A, 'rec.guard', okguard, expected='second subtree built iff s\' of the first; from the minus edge iff v = -1, else from the plus edge',
-              found='minus-call under [%s]; plus-call under [%s]' % (' & '.join(show(c) for c in Rm_rc[3]), ' & '.join(show(c) for c in Rp_rc[3])), sp=sp,
+              found=foundg, sp=sp,
               why='a stopped first half ends the doubling (never draw from a subtree that stopped); direction decides the side')
 
     def R2(k):
